@@ -71,6 +71,20 @@ func fsMachine(p *Prog, copyAtomic bool) *Machine {
 		eff(st, desc)
 		return []Val{tagged{nilV{}, desc + "=ok"}, tagged{IfaceV{T: errType, V: "failed " + desc}, desc + "=fail"}}, true
 	}
+	for _, meth := range []string{"Sync", "Chmod", "Truncate"} {
+		meth := meth
+		m.Hooks["(*os.File)."+meth] = func(m *Machine, st *State, call *ssa.CallCommon, args []Val) ([]Val, bool) {
+			name := "?"
+			if pp, ok := args[0].(Ptr); ok {
+				if o, ok := st.Heap[pp.Obj]; ok {
+					name = valStr(o.V)
+				}
+			}
+			desc := strings.ToLower(meth) + "(" + name + ")"
+			eff(st, desc)
+			return []Val{tagged{nilV{}, desc + "=ok"}, tagged{IfaceV{T: errType, V: "failed " + desc}, desc + "=fail"}}, true
+		}
+	}
 	m.Hooks["(*os.File).Stat"] = func(m *Machine, st *State, call *ssa.CallCommon, args []Val) ([]Val, bool) {
 		id := st.alloc(types.Typ[types.Int], OpaqueV{"fileinfo:src"})
 		return []Val{&TupleV{E: []Val{IfaceV{T: ifT, V: Ptr{Obj: id}}, nilV{}}}}, true
@@ -445,10 +459,15 @@ func checkC20(p *Prog, rp *Report) {
 				if !isStruct || es.NumFields() == 0 || es.Field(0).Type() != types.Type(fhT) {
 					continue
 				}
-				for _, name := range []string{"../secret", "/etc/passwd", "sub/x.tar"} {
+				for _, name := range []string{"../secret", "/etc/passwd", "sub/x.tar", "../secret|no Files", "/etc/passwd|no Files"} {
 					m2 := fsMachine(p, true)
 					st2 := initState(m2, "control")
-					id2 := mkHandle(st2, []string{"a.tar.gz", "b.tar.xz"})
+					files := []string{"a.tar.gz", "b.tar.xz"}
+					if strings.HasSuffix(name, "|no Files") {
+						// a document without a Files field: the other lists are all there is
+						name, files = strings.TrimSuffix(name, "|no Files"), nil
+					}
+					id2 := mkHandle(st2, files)
 					arr := &ArrayV{}
 					for _, n := range []string{"a.tar.gz", name} {
 						e := zeroVal(en).(*StructV)
